@@ -1,6 +1,6 @@
 SPECIFICATION Spec
 CONSTANTS
-  Tier = "quick"
+  Tier = "thorough"
   Emit = TRUE
 INVARIANT NeverExtendedShortByLessThanUnit
 INVARIANT AbsentStaysAbsent
